@@ -757,6 +757,13 @@ class Engine:
     def _check(self, *assumptions):
         t0 = _time.perf_counter()
         r = self.solver.check(*assumptions)
+        if r == z3.unknown and self.query_timeout_ms:
+            # one more attempt with four times the allowance (a loaded machine must not turn a slow query into an inconclusive run)
+            self.solver.set('timeout', 4 * self.query_timeout_ms)
+            try:
+                r = self.solver.check(*assumptions)
+            finally:
+                self.solver.set('timeout', self.query_timeout_ms)
         self.stats.solver_s += _time.perf_counter() - t0
         self.stats.queries += 1
         if r == z3.unknown:
